@@ -52,7 +52,7 @@ def run(chk):
                        'simple_comparison_expression_cmp (modularly: against the contracts of its three callees, not their bodies) return 0 exactly for equal operands, and the sign of '
                        'each is reflexive, antisymmetric and transitive -- lemmas over two and three instances of the function\'s own path summary (vf/summary.py), so they are decided '
                        'again from the current source on every run; constant_cmp (dispatch over the eight constant kinds, type-order and comparator tables re-read from the source) likewise, against the '
-                       'contracts of the per-kind comparators; object_path_cmp against the contract of the lexicographic step comparison; hex_cmp, bin_cmp, list_cmp and iter_lex_cmp (generators, bytes, sorted lists) remain assumed callee contracts.  '
+                       'contracts of the per-kind comparators; object_path_cmp against the contract of the lexicographic step comparison; hex_cmp / bin_cmp over an uninterpreted decoding function; list_cmp and iter_lex_cmp (sorted lists, generators) remain assumed callee contracts.  '
                        'generic_cmp is the three-way comparison of its operands (ints and strings) and iter_in is membership up to the comparator '
                        '(loop invariant with break); from the contract the == 0 kernel is an equivalence and the sign is antisymmetric and transitive (z3 lemmas), which is what '
                        'sorting and the final comparison of normal forms rely on.  B (carries the property; recursive AST rewriting is outside PyVC): on the generated pattern '
@@ -65,6 +65,7 @@ def run(chk):
     for name, claim in K.cmp_lemmas(): chk.lemma(name, claim)
     K.run_comparators(chk)      # comparison-level comparators: contracts + order lemmas over their path summaries
     from vf.check import SRC_ROOT
+    K.run_decoded_cmps(chk)      # hex_cmp / bin_cmp: decode, then the byte order
     K.run_object_path_cmp(chk)      # object type names, then the step sequences (against the contract of the lexicographic comparison)
     K.run_constant_cmp(chk, SRC_ROOT)      # the dispatch over constant kinds, against the per-kind comparators' contracts; tables re-read from the source
 
